@@ -457,7 +457,8 @@ def build_statusline(data: dict) -> str:
     if mcp:
         parts.append(mcp)
     log.debug("build_statusline_done", parts_count=len(parts))
-    return " | ".join(parts)
+    # one line, whatever the text fields contain
+    return " ".join(" | ".join(parts).splitlines())
 
 
 def main():
@@ -470,7 +471,7 @@ def main():
         data = {}
     session_id = data.get("session_id", "")
     cached = get_cached(session_id)
-    if cached:
+    if cached and cached.splitlines() == [cached]:
         log.info("main_served_cached", session_id=session_id)
         print(cached)
         return
